@@ -224,6 +224,33 @@ pub fn run(scenario: &str, input: &Value) -> Option<(bool, Value)> {
             });
             Some((ok, obs))
         }
+        // C14 (history): a sequence of distribution messages from a conforming sender, decoded with ONE atom cache,
+        // must yield the expected terms (cache slots = segment index * 256 + internal index; ATOM_CACHE_REF n = n-th
+        // reference of the message's own header)
+        "dist_messages" => {
+            let mut cache = erltf::decoder::AtomCache::new();
+            let mut ok = true;
+            let mut obs = vec![];
+            for m in input["messages"].as_array().unwrap() {
+                let data: Vec<u8> = m["bytes"].as_array().unwrap().iter().map(|x| x.as_u64().unwrap() as u8).collect();
+                let want = term(&m["expect"]);
+                let got = erltf::decoder::decode_with_atom_cache(&data, &mut cache);
+                let good = match &got { Ok((t, _)) => format!("{:?}", t) == format!("{:?}", want), Err(_) => false };
+                ok &= good;
+                obs.push(json!({"got": format!("{:?}", got.map(|(t, _)| t)), "want": format!("{:?}", want)}));
+            }
+            Some((ok, json!(obs)))
+        }
+        // C14 (writer): the bytes of encode_with_dist_header are read by an INDEPENDENT reader of the header layout
+        // (written here from erl_ext_dist, sharing no code with the library) as the same atoms
+        "dist_header_write" => {
+            let t = term(&input["term"]);
+            let bytes = match erltf::encoder::encode_with_dist_header(&t) { Ok(b) => b, Err(e) => return Some((input["expect_error"].as_bool().unwrap_or(false), json!(format!("{:?}", e)))) };
+            let want: Vec<String> = input["atoms"].as_array().unwrap().iter().map(|a| gen_atom(a)).collect();
+            let got = independent_header_atoms(&bytes);
+            let ok = match &got { Some(a) => { let mut x = a.clone(); x.sort(); let mut y = want.clone(); y.sort(); x == y }, None => false };
+            Some((ok, json!({"header_atoms_read": got.map(|a| a.iter().map(|s| if s.len() > 40 { format!("{}..({} bytes)", &s[..8], s.len()) } else { s.clone() }).collect::<Vec<_>>()), "first_bytes": bytes.iter().take(8).collect::<Vec<_>>()})))
+        }
         // C15: a Rust value survives to_term/from_term and to_bytes/from_bytes
         "serde_roundtrip" => {
             let ty = input["type"].as_str().unwrap();
@@ -253,6 +280,22 @@ pub fn run(scenario: &str, input: &Value) -> Option<(bool, Value)> {
                 _ => return None,
             };
             Some(r)
+        }
+        // C15: a big integer of n <= 8 little-endian digits (what the wire delivers for wide integers) is read by the
+        // integer deserializers as exactly its value, or rejected when it does not fit
+        "serde_bigint_read" => {
+            let d: Vec<u8> = input["digits"].as_array().unwrap().iter().map(|x| x.as_u64().unwrap() as u8).collect();
+            let n = (i(&input["n"]) as usize).clamp(1, 8).min(d.len());
+            let neg = input["neg"].as_bool().unwrap_or(false);
+            let mut m: i128 = 0;
+            for k in 0..n { m |= (d[k] as i128) << (8 * k); }
+            let val = if neg { -m } else { m };
+            let term = erltf::OwnedTerm::BigInt(erltf::types::BigInt::new(neg, d[..n].to_vec()));
+            let a = erltf_serde::from_term::<i64>(&term);
+            let b = erltf_serde::from_term::<u64>(&term);
+            let ok_a = match &a { Ok(x) => *x as i128 == val, Err(_) => val < i64::MIN as i128 || val > i64::MAX as i128 };
+            let ok_b = match &b { Ok(x) => *x as i128 == val, Err(_) => val < 0 || val > u64::MAX as i128 };
+            Some((ok_a && ok_b, json!({"value": val.to_string(), "as_i64": format!("{:?}", a.map_err(|e| e.to_string())), "as_u64": format!("{:?}", b.map_err(|e| e.to_string()))})))
         }
         // C09: fragments numbered N..1 (header = N, carrying the start of the data) reassemble to the original bytes
         "fragments" => {
@@ -335,6 +378,18 @@ pub fn run(scenario: &str, input: &Value) -> Option<(bool, Value)> {
         // structural; `map_len` guards against key merging, which would also merge in the expected term)
         "decode_value" => {
             let data = gen_bytes(input);
+            if input.get("expect_error").and_then(|v| v.as_bool()).unwrap_or(false) {
+                // e.g. bytes after one complete term: both decoders must report an error
+                let o = erltf::decode(&data);
+                let mut ok = o.is_err();
+                let mut bobs = Value::Null;
+                if input.get("also_borrowed").and_then(|v| v.as_bool()).unwrap_or(false) {
+                    let b = erltf::decoder::decode_borrowed(&data);
+                    ok &= match &b { Err(e) => e.context.byte_offset <= data.len(), Ok(_) => false };
+                    bobs = json!(format!("{:?}", b.map(|t| t.to_owned())));
+                }
+                return Some((ok, json!({"owned": format!("{:?}", o), "borrowed": bobs, "expected": "an error"})));
+            }
             let want = term(&input["expect"]);
             let owned = erltf::decode(&data);
             let mut ok = match &owned { Ok(t) => format!("{:?}", t) == format!("{:?}", want), Err(_) => false };
@@ -396,6 +451,7 @@ pub fn term(v: &Value) -> erltf::OwnedTerm {
         "float" => T::Float(x.as_f64().or_else(|| x.as_str().and_then(|s| s.parse().ok())).unwrap()),
         "big" => T::BigInt(erltf::types::BigInt::new(x["neg"].as_bool().unwrap(), bytes(&x["digits"]))),
         "atom" => T::Atom(erltf::types::Atom::new(x.as_str().unwrap())),
+        "atom_rep" => T::Atom(erltf::types::Atom::new(x[0].as_str().unwrap().repeat(x[1].as_u64().unwrap() as usize))),
         "bin" => T::Binary(bytes(x)),
         "bitbin" => T::BitBinary { bytes: bytes(&x[0]), bits: x[1].as_u64().unwrap() as u8 },
         "list" => T::List(x.as_array().unwrap().iter().map(term).collect()),
@@ -404,6 +460,32 @@ pub fn term(v: &Value) -> erltf::OwnedTerm {
         "map" => T::Map(x.as_array().unwrap().iter().map(|kv| (term(&kv[0]), term(&kv[1]))).collect()),
         _ => panic!("unknown term kind {k}"),
     }
+}
+fn gen_atom(a: &Value) -> String {
+    if let Some(s) = a.as_str() { s.to_string() } else { a[0].as_str().unwrap().repeat(a[1].as_u64().unwrap() as usize) }
+}
+/// erl_ext_dist, "Distribution Header": 131 68 N Flags(N/2+1 bytes, half byte per reference, least significant half first;
+/// bit 3 = new entry, bits 0-2 = segment index; one more half byte after them whose bit 0 is LongAtoms) then N references:
+/// internal index, and for new entries Length (1 byte, 2 if LongAtoms) + text
+fn independent_header_atoms(b: &[u8]) -> Option<Vec<String>> {
+    if b.len() < 3 || b[0] != 131 || b[1] != 68 { return None; }
+    let n = b[2] as usize;
+    if n == 0 { return Some(vec![]); }
+    let fl = n / 2 + 1;
+    let flags = b.get(3..3 + fl)?;
+    let half = |i: usize| -> u8 { if i % 2 == 0 { flags[i / 2] & 0x0f } else { flags[i / 2] >> 4 } };
+    let long = half(n) & 1 != 0;
+    let mut p = 3 + fl;
+    let mut out = vec![];
+    for i in 0..n {
+        let _internal = *b.get(p)?; p += 1;
+        if half(i) & 8 != 0 {
+            let len = if long { let l = u16::from_be_bytes([*b.get(p)?, *b.get(p + 1)?]) as usize; p += 2; l } else { let l = *b.get(p)? as usize; p += 1; l };
+            out.push(String::from_utf8(b.get(p..p + len)?.to_vec()).ok()?);
+            p += len;
+        } else { return None; }
+    }
+    Some(out)
 }
 fn ord_s(o: std::cmp::Ordering) -> &'static str { match o { std::cmp::Ordering::Less => "Less", std::cmp::Ordering::Equal => "Equal", std::cmp::Ordering::Greater => "Greater" } }
 fn hash_of(t: &erltf::OwnedTerm) -> u64 { use std::hash::{Hash, Hasher}; let mut h = std::collections::hash_map::DefaultHasher::new(); t.hash(&mut h); h.finish() }
